@@ -473,4 +473,416 @@ example : sdiv (#[] : Array ℚ) 0 = .ok #[] := by rw [sdiv_exact]; simp
 
 end ElementwiseExact
 
+/-! ## 3. reductions, through a map that preserves `+ * 0` -/
+
+/-- `φ` carries the model's `+`, `*`, `0` on `K` to those of a commutative semiring `R`
+    (`id` on a commutative ring; `toC : Cx ℝ → ℂ`) -/
+structure ScalarHom {K R : Type} [Add K] [Mul K] [Zero K] [CommSemiring R] (φ : K → R) : Prop where
+  map_add : ∀ x y, φ (x + y) = φ x + φ y
+  map_mul : ∀ x y, φ (x * y) = φ x * φ y
+  map_zero : φ 0 = 0
+
+section Hom
+variable {K R : Type} [Add K] [Sub K] [Mul K] [Neg K] [Zero K] [One K] [BEq K] [ScalarExt K]
+  [CommSemiring R] {φ : K → R}
+
+theorem ScalarHom.foldl_add (hφ : ScalarHom φ) {α : Type} (g : α → K) (d : α) (a : Array α)
+    (init : K) :
+    φ (a.foldl (fun acc x => acc + g x) init)
+      = φ init + ∑ i ∈ Finset.range a.size, φ (g (a.getD i d)) := by
+  have h : ∀ (l : List α) (init : K), φ (l.foldl (fun acc x => acc + g x) init)
+      = l.foldl (fun acc x => acc + φ (g x)) (φ init) := by
+    intro l
+    induction l with
+    | nil => intro _; rfl
+    | cons x l ih => intro init; rw [List.foldl_cons, ih, hφ.map_add]; rfl
+  rw [← Array.foldl_toList, h, Array.foldl_toList]
+  exact arr_foldl_add_eq_sum (fun x => φ (g x)) d a (φ init)
+
+theorem ScalarHom.foldl_mul (hφ : ScalarHom φ) (a : Array K) (init : K) :
+    φ (a.foldl (· * ·) init) = φ init * ∏ i ∈ Finset.range a.size, φ (a.getD i 0) := by
+  have h : ∀ (l : List K) (init : K), φ (l.foldl (· * ·) init)
+      = l.foldl (fun acc x => acc * φ x) (φ init) := by
+    intro l
+    induction l with
+    | nil => intro _; rfl
+    | cons x l ih => intro init; rw [List.foldl_cons, ih, hφ.map_mul]; rfl
+  rw [← Array.foldl_toList, h, Array.foldl_toList]
+  exact arr_foldl_mul_eq_prod φ 0 a (φ init)
+
+/-- `dot` is the plain (bilinear) sum of the entry products -/
+theorem dot_hom (hφ : ScalarHom φ) (a b : Array K) (h : a.size = b.size) :
+    ∃ d, dot a b = .ok d ∧
+      φ d = ∑ i ∈ Finset.range a.size, φ (a.getD i 0) * φ (b.getD i 0) := by
+  refine ⟨_, by unfold dot; rw [if_neg (by simpa using h)], ?_⟩
+  have := hφ.foldl_add (fun x : K => x) 0 (Array.zipWith (· * ·) a b) 0
+  simp only [hφ.map_zero, zero_add] at this
+  rw [this]
+  simp only [Array.size_zipWith, ← h, min_self]
+  refine Finset.sum_congr rfl fun i hi => ?_
+  have hi : i < a.size := Finset.mem_range.mp hi
+  have hi' : i < b.size := h ▸ hi
+  simp [Array.getD, hi, hi', hφ.map_mul]
+
+/-- `sum_slice(s, e)` on a valid range is the sum of the entries `s … e` -/
+theorem sumSlice_hom (hφ : ScalarHom φ) (a : Array K) (s e : Nat) (hse : s ≤ e) (he : e < a.size) :
+    ∃ r, sumSlice a s e = .ok r ∧ φ r = ∑ i ∈ Finset.Icc s e, φ (a.getD i 0) := by
+  refine ⟨_, by unfold sumSlice; rw [if_neg (by omega), if_neg (by omega), if_neg (by omega)], ?_⟩
+  have := hφ.foldl_add (fun x : K => x) 0 (a.extract s (e + 1)) 0
+  simp only [hφ.map_zero, zero_add] at this
+  rw [this, ← Finset.Ico_add_one_right_eq_Icc, Finset.sum_Ico_eq_sum_range]
+  have hsz : (a.extract s (e + 1)).size = e + 1 - s := by simp; omega
+  rw [hsz]
+  refine Finset.sum_congr rfl fun i hi => ?_
+  have hi : i < e + 1 - s := Finset.mem_range.mp hi
+  have h1 : s + i < a.size := by omega
+  simp [Array.getD, hi, h1, hsz]
+
+/-- `sum()` of a non-empty vector is the sum of all entries (empty: `sum_empty`) -/
+theorem sum_hom (hφ : ScalarHom φ) (a : Array K) (h : 0 < a.size) :
+    ∃ r, Vec.sum a = .ok r ∧ φ r = ∑ i ∈ Finset.range a.size, φ (a.getD i 0) := by
+  obtain ⟨r, hr, e⟩ := sumSlice_hom hφ a 0 (a.size - 1) (Nat.zero_le _) (by omega)
+  refine ⟨r, ?_, ?_⟩
+  · have h1 : usub a.size 1 = .ok (a.size - 1) := by unfold usub; rw [if_pos (by omega)]
+    unfold Vec.sum
+    rw [h1]
+    exact hr
+  · rw [e, ← Finset.Ico_add_one_right_eq_Icc, Finset.range_eq_Ico]
+    congr 2
+    show a.size - 1 + 1 = a.size
+    omega
+
+/-- `product_slice(s, e)` on a valid range is the product of the entries `s … e` -/
+theorem productSlice_hom (hφ : ScalarHom φ) (a : Array K) (s e : Nat) (hse : s ≤ e)
+    (he : e < a.size) :
+    ∃ r, productSlice a s e = .ok r ∧ φ r = ∏ i ∈ Finset.Icc s e, φ (a.getD i 0) := by
+  have hs : s < a.size := by omega
+  have hg : aget a s = .ok a[s] := by simp [aget, hs]
+  refine ⟨(a.extract (s + 1) (e + 1)).foldl (· * ·) a[s], ?_, ?_⟩
+  · unfold productSlice
+    rw [if_neg (by omega), if_neg (by omega), if_neg (by omega), hg]
+    rfl
+  · rw [hφ.foldl_mul, ← Finset.Ico_add_one_right_eq_Icc,
+      Finset.prod_eq_prod_Ico_succ_bot (by omega), Finset.prod_Ico_eq_prod_range]
+    have hsz : (a.extract (s + 1) (e + 1)).size = e + 1 - (s + 1) := by simp; omega
+    rw [hsz]
+    congr 1
+    · simp [Array.getD, hs]
+    · refine Finset.prod_congr rfl fun i hi => ?_
+      have hi : i < e + 1 - (s + 1) := Finset.mem_range.mp hi
+      have h1 : s + 1 + i < a.size := by omega
+      have h2 : i < e - s := by omega
+      simp [Array.getD, h1, h2, hsz]
+
+/-- `product()` of a non-empty vector is the product of all entries -/
+theorem product_hom (hφ : ScalarHom φ) (a : Array K) (h : 0 < a.size) :
+    ∃ r, product a = .ok r ∧ φ r = ∏ i ∈ Finset.range a.size, φ (a.getD i 0) := by
+  obtain ⟨r, hr, e⟩ := productSlice_hom hφ a 0 (a.size - 1) (Nat.zero_le _) (by omega)
+  refine ⟨r, ?_, ?_⟩
+  · have h1 : usub a.size 1 = .ok (a.size - 1) := by unfold usub; rw [if_pos (by omega)]
+    unfold product
+    rw [h1]
+    exact hr
+  · rw [e, ← Finset.Ico_add_one_right_eq_Icc, Finset.range_eq_Ico]
+    congr 2
+    show a.size - 1 + 1 = a.size
+    omega
+
+/-- `product()` of the empty vector: `size - 1` underflows (class S) -/
+theorem product_empty : product (#[] : Array K) = .error .arith := rfl
+
+/-- `norm_1` is the sum of the entries' `Signed::abs` -/
+theorem norm1_hom (hφ : ScalarHom φ) (a : Array K) :
+    φ (norm1 a) = ∑ i ∈ Finset.range a.size, φ (ScalarExt.mag (a.getD i 0)) := by
+  unfold norm1
+  rw [hφ.foldl_add ScalarExt.mag 0, hφ.map_zero, zero_add]
+
+end Hom
+
+/-! ### exact interpretation: `φ = id` on a commutative ring -/
+section ExactReductions
+variable {K : Type} [CommRing K] [BEq K] [ScalarExt K]
+
+theorem scalarHom_id : ScalarHom (id : K → K) := ⟨fun _ _ => rfl, fun _ _ => rfl, rfl⟩
+
+theorem sum_eq (a : Array K) (h : 0 < a.size) :
+    Vec.sum a = .ok (∑ i ∈ Finset.range a.size, a.getD i 0) := by
+  obtain ⟨r, hr, e⟩ := sum_hom scalarHom_id a h
+  rw [hr]; exact congrArg _ e
+
+theorem product_eq (a : Array K) (h : 0 < a.size) :
+    product a = .ok (∏ i ∈ Finset.range a.size, a.getD i 0) := by
+  obtain ⟨r, hr, e⟩ := product_hom scalarHom_id a h
+  rw [hr]; exact congrArg _ e
+
+theorem dot_eq_sum_ring (a b : Array K) (h : a.size = b.size) :
+    dot a b = .ok (∑ i ∈ Finset.range a.size, a.getD i 0 * b.getD i 0) := by
+  obtain ⟨r, hr, e⟩ := dot_hom scalarHom_id a b h
+  rw [hr]; exact congrArg _ e
+
+end ExactReductions
+
+/-! ### complex vectors: `φ = toC` -/
+section ComplexReductions
+open Ohsl.RealI Ohsl.Props.C14
+
+theorem toC_scalarHom : ScalarHom toC := ⟨toC_add, toC_mul, toC_zero⟩
+
+/-- `dot` of two complex vectors is the BILINEAR form `Σ aᵢ bᵢ` (no conjugation) -/
+theorem dot_complex (a b : Array (Cx ℝ)) (h : a.size = b.size) :
+    ∃ d, dot a b = .ok d ∧
+      toC d = ∑ i ∈ Finset.range a.size, toC (a.getD i 0) * toC (b.getD i 0) :=
+  dot_hom toC_scalarHom a b h
+
+/-- … so `dot [i] [i] = -1`, not `1` -/
+example : ∃ d, dot (#[⟨0, 1⟩] : Array (Cx ℝ)) #[⟨0, 1⟩] = .ok d ∧ toC d = -1 := by
+  obtain ⟨d, hd, e⟩ := dot_complex #[⟨0, 1⟩] #[⟨0, 1⟩] rfl
+  refine ⟨d, hd, ?_⟩
+  rw [e]
+  have : toC (⟨0, 1⟩ : Cx ℝ) = Complex.I := rfl
+  simp [this]
+
+theorem sum_complex (a : Array (Cx ℝ)) (h : 0 < a.size) :
+    ∃ r, Vec.sum a = .ok r ∧ toC r = ∑ i ∈ Finset.range a.size, toC (a.getD i 0) :=
+  sum_hom toC_scalarHom a h
+
+theorem sumSlice_complex (a : Array (Cx ℝ)) (s e : Nat) (hse : s ≤ e) (he : e < a.size) :
+    ∃ r, sumSlice a s e = .ok r ∧ toC r = ∑ i ∈ Finset.Icc s e, toC (a.getD i 0) :=
+  sumSlice_hom toC_scalarHom a s e hse he
+
+theorem product_complex (a : Array (Cx ℝ)) (h : 0 < a.size) :
+    ∃ r, product a = .ok r ∧ toC r = ∏ i ∈ Finset.range a.size, toC (a.getD i 0) :=
+  product_hom toC_scalarHom a h
+
+theorem productSlice_complex (a : Array (Cx ℝ)) (s e : Nat) (hse : s ≤ e) (he : e < a.size) :
+    ∃ r, productSlice a s e = .ok r ∧ toC r = ∏ i ∈ Finset.Icc s e, toC (a.getD i 0) :=
+  productSlice_hom toC_scalarHom a s e hse he
+
+/-- `Signed::abs` of a complex number is its modulus with zero imaginary part -/
+theorem toC_mag (z : Cx ℝ) : toC (ScalarExt.mag z) = ((‖toC z‖ : ℝ) : ℂ) := by
+  show toC ⟨Cx.abs z, 0⟩ = _
+  rw [abs_eq]; rfl
+
+/-- `norm_1` of a complex vector is the (real) sum of the moduli -/
+theorem norm1_complex (a : Array (Cx ℝ)) :
+    toC (norm1 a) = ((∑ i ∈ Finset.range a.size, ‖toC (a.getD i 0)‖ : ℝ) : ℂ) := by
+  rw [norm1_hom toC_scalarHom]
+  simp [toC_mag]
+
+end ComplexReductions
+
+/-! ## 4. `norm_inf` with an arbitrary magnitude function; the complex inf-norm -/
+section NormInfBy
+open Ohsl.RealI Ohsl.Props.C14
+
+/-- `normInfBy f` of a non-empty vector is the largest `f`-value of its entries, and it is
+    attained -/
+theorem normInfBy_spec {α : Type} (f : α → ℝ) (a : Array α) (h : 0 < a.size) :
+    ∃ m, Vec.normInfBy f a = .ok m ∧ (∀ i (hi : i < a.size), f a[i] ≤ m) ∧
+      ∃ i, ∃ hi : i < a.size, m = f a[i] := by
+  rcases a with ⟨l⟩
+  cases l with
+  | nil => simp at h
+  | cons x0 t =>
+    have hex : ((⟨x0 :: t⟩ : Array α).extract 1 (⟨x0 :: t⟩ : Array α).size) = ⟨t⟩ := by
+      simp
+    refine ⟨t.foldl (fun r x => if ScalarExt.lt r (f x) then f x else r) (f x0), ?_, ?_⟩
+    · unfold Vec.normInfBy
+      simp only [List.getElem?_toArray, List.getElem?_cons_zero]
+      rw [hex, ← Array.foldl_toList]
+    · obtain ⟨h1, h2, h3⟩ := foldl_max_spec f t (f x0)
+      constructor
+      · intro i hi
+        cases i with
+        | zero => simpa using h1
+        | succ i =>
+          have hi' : i < t.length := by simpa using hi
+          have := h2 t[i] (List.getElem_mem hi')
+          simpa using this
+      · rcases h3 with h3 | ⟨y, hy, h3⟩
+        · exact ⟨0, by simp, by simpa using h3⟩
+        · obtain ⟨i, hi, rfl⟩ := List.mem_iff_getElem.mp hy
+          exact ⟨i + 1, by simpa using hi, by simpa using h3⟩
+
+/-- the empty vector is rejected (`self.vec[0]` is out of bounds) -/
+theorem normInfBy_empty {α : Type} (f : α → ℝ) :
+    Vec.normInfBy f (#[] : Array α) = .error .range := by
+  simp [Vec.normInfBy]
+
+/-- complete description of `normInfBy` -/
+theorem normInfBy_ok_iff {α : Type} (f : α → ℝ) (a : Array α) (m : ℝ) :
+    Vec.normInfBy f a = .ok m ↔
+      (∀ i (hi : i < a.size), f a[i] ≤ m) ∧ ∃ i, ∃ hi : i < a.size, m = f a[i] := by
+  constructor
+  · intro h
+    have hs : 0 < a.size := by
+      by_contra hc
+      have : a = #[] := by simpa using hc
+      subst this
+      rw [normInfBy_empty] at h; cases h
+    obtain ⟨m', hm', hle, hatt⟩ := normInfBy_spec f a hs
+    rw [hm'] at h; cases h
+    exact ⟨hle, hatt⟩
+  · rintro ⟨hle, i, hi, rfl⟩
+    obtain ⟨m', hm', hle', j, hj, rfl⟩ := normInfBy_spec f a (by omega)
+    rw [hm']
+    exact congrArg _ (le_antisymm (hle j hj) (hle' i hi))
+
+/-- `norm_inf` of a non-empty complex vector is the largest modulus of its entries -/
+theorem normInfC_spec (a : Array (Cx ℝ)) (h : 0 < a.size) :
+    ∃ m, Vec.normInfC a = .ok m ∧ (∀ i (hi : i < a.size), ‖toC a[i]‖ ≤ m) ∧
+      ∃ i, ∃ hi : i < a.size, m = ‖toC a[i]‖ := by
+  obtain ⟨m, hm, hle, i, hi, e⟩ := normInfBy_spec (fun z : Cx ℝ => Cx.abs z) a h
+  refine ⟨m, hm, fun j hj => ?_, i, hi, ?_⟩
+  · rw [← abs_eq]; exact hle j hj
+  · rw [← abs_eq]; exact e
+
+theorem normInfC_ok_iff (a : Array (Cx ℝ)) (m : ℝ) :
+    Vec.normInfC a = .ok m ↔
+      (∀ i (hi : i < a.size), ‖toC a[i]‖ ≤ m) ∧ ∃ i, ∃ hi : i < a.size, m = ‖toC a[i]‖ := by
+  unfold Vec.normInfC
+  rw [normInfBy_ok_iff]
+  simp only [abs_eq]
+
+/-- … as a `Finset.sup'` -/
+theorem normInfC_eq_sup' (a : Array (Cx ℝ)) (h : 0 < a.size) :
+    Vec.normInfC a = .ok ((Finset.range a.size).sup' ⟨0, Finset.mem_range.mpr h⟩
+      (fun i => ‖toC (a.getD i 0)‖)) := by
+  rw [normInfC_ok_iff]
+  constructor
+  · intro i hi
+    have := Finset.le_sup' (fun i => ‖toC (a.getD i 0)‖) (Finset.mem_range.mpr hi)
+    simpa [Array.getD, hi] using this
+  · obtain ⟨i, hi, e⟩ := Finset.exists_mem_eq_sup' ⟨0, Finset.mem_range.mpr h⟩
+      (fun i => ‖toC (a.getD i 0)‖)
+    have hi' : i < a.size := Finset.mem_range.mp hi
+    refine ⟨i, hi', ?_⟩
+    rw [e]
+    simp [Array.getD, hi']
+
+theorem normInfC_empty : Vec.normInfC (#[] : Array (Cx ℝ)) = .error .range :=
+  normInfBy_empty _
+
+theorem normInfC_nonneg {a : Array (Cx ℝ)} {m : ℝ} (h : Vec.normInfC a = .ok m) : 0 ≤ m := by
+  obtain ⟨_, i, hi, rfl⟩ := (normInfC_ok_iff a m).mp h
+  exact norm_nonneg _
+
+end NormInfBy
+
+/-! ## 5. complex vectors -/
+section ComplexVec
+variable {K : Type} [Add K] [Sub K] [Mul K] [Neg K] [Zero K] [One K] [BEq K] [ScalarExt K]
+
+theorem conj_contents (a : Array (Cx K)) (k : Nat) : (conj a)[k]? = a[k]?.map Cx.conj := by
+  simp [conj]
+theorem real_contents (a : Array (Cx K)) (k : Nat) : (real a)[k]? = a[k]?.map (·.re) := by
+  simp [real]
+theorem conj_real_size (a : Array (Cx K)) : (conj a).size = a.size ∧ (real a).size = a.size := by
+  simp [conj, real]
+
+/-- conjugation does not touch the real parts (class S) -/
+theorem real_conj (a : Array (Cx K)) : real (conj a) = real a := by
+  apply Array.ext_getElem?
+  intro k
+  rw [real_contents, conj_contents, real_contents]
+  cases a[k]? <;> simp [Cx.conj]
+
+/-- `f64 * vector`: the scalar is the LEFT factor -/
+theorem lsmul_contents [Transc K] (s : K) (a : Array K) (k : Nat) :
+    (lsmul s a)[k]? = a[k]?.map (s * ·) := by
+  simp [lsmul]
+
+end ComplexVec
+
+/-- conjugating twice is the identity wherever `- - x = x` (class E) -/
+theorem conj_conj {K : Type} [Ring K] [BEq K] [ScalarExt K] (a : Array (Cx K)) :
+    conj (conj a) = a := by
+  apply Array.ext_getElem?
+  intro k
+  rw [conj_contents, conj_contents]
+  cases a[k]? with
+  | none => rfl
+  | some z => cases z; simp [Cx.conj]
+
+section ComplexVecReal
+open Ohsl.RealI Ohsl.Props.C14 Ohsl.Props.C13
+
+/-- `conj` is entry-wise complex conjugation -/
+theorem conj_toC (a : Array (Cx ℝ)) (k : Nat) :
+    (conj a)[k]?.map toC = a[k]?.map (fun z => (starRingEnd ℂ) (toC z)) := by
+  rw [conj_contents]
+  cases a[k]? <;> simp [toC_conj]
+
+/-- `real` takes the real parts -/
+theorem real_toC (a : Array (Cx ℝ)) (k : Nat) :
+    (real a)[k]? = a[k]?.map (fun z => (toC z).re) := by
+  rw [real_contents]; rfl
+
+/-- `abs` of a complex vector: every entry becomes its modulus, as a complex number with zero
+    imaginary part -/
+theorem abs_complex (a : Array (Cx ℝ)) (k : Nat) :
+    (Vec.abs a)[k]?.map toC = a[k]?.map (fun z => ((‖toC z‖ : ℝ) : ℂ)) := by
+  rw [abs_contents]
+  cases a[k]? <;> simp [toC_mag]
+
+theorem abs_complex_im (a : Array (Cx ℝ)) (z : Cx ℝ) (hz : z ∈ Vec.abs a) : z.im = 0 := by
+  obtain ⟨w, _, rfl⟩ := Array.mem_map.mp hz
+  rfl
+
+theorem neg_toC (a : Array (Cx ℝ)) (k : Nat) :
+    (neg a)[k]?.map toC = a[k]?.map (fun z => -toC z) := by
+  rw [neg_contents]
+  cases a[k]? <;> simp [toC_neg]
+
+theorem smul_toC (a : Array (Cx ℝ)) (s : Cx ℝ) (k : Nat) :
+    (smul a s)[k]?.map toC = a[k]?.map (fun z => toC z * toC s) := by
+  rw [smul_contents]
+  cases a[k]? <;> simp [toC_mul]
+
+theorem addS_subS_toC (a : Array (Cx ℝ)) (s : Cx ℝ) (k : Nat) :
+    (addS a s)[k]?.map toC = a[k]?.map (fun z => toC z + toC s) ∧
+    (subS a s)[k]?.map toC = a[k]?.map (fun z => toC z - toC s) := by
+  rw [addS_contents, subS_contents]
+  cases a[k]? <;> simp [toC_add, toC_sub]
+
+theorem add_sub_toC (a b c : Array (Cx ℝ)) (k : Nat) (h1 : k < a.size) (h2 : k < b.size) :
+    (add a b = .ok c → c[k]?.map toC = some (toC a[k] + toC b[k])) ∧
+    (sub a b = .ok c → c[k]?.map toC = some (toC a[k] - toC b[k])) := by
+  constructor
+  · intro h
+    rw [(add_contents a b c h).2.2 k h1 h2]; simp [toC_add]
+  · intro h
+    rw [(sub_contents a b c h).2.2 k h1 h2]; simp [toC_sub]
+
+/-- `vector / complex scalar`: entry-wise division in ℂ; the divisor `0` is rejected (class
+    `arith`) exactly when there is an entry to divide -/
+theorem sdiv_complex (a : Array (Cx ℝ)) (s : Cx ℝ) :
+    (toC s = 0 ∧ 0 < a.size ∧ sdiv a s = .error .arith) ∨
+    ((toC s ≠ 0 ∨ a.size = 0) ∧ ∃ c, sdiv a s = .ok c ∧ c.size = a.size ∧
+      ∀ k : Nat, c[k]?.map toC = a[k]?.map (fun z => toC z / toC s)) := by
+  by_cases hs : toC s = 0
+  · by_cases ha : 0 < a.size
+    · refine Or.inl ⟨hs, ha, ?_⟩
+      rw [sdiv_error_iff]
+      exact ⟨0, ha, (toC_div_error _ s).mpr hs, fun j hj => absurd hj (Nat.not_lt_zero j)⟩
+    · have : a = #[] := by simpa using ha
+      subst this
+      exact Or.inr ⟨Or.inr rfl, #[], sdiv_empty s, rfl, fun k => by simp⟩
+  · refine Or.inr ⟨Or.inl hs, ?_⟩
+    have hq : ∀ z : Cx ℝ, ∃ q, Cx.div z s = .ok q ∧ toC q = toC z / toC s :=
+      fun z => toC_div_ok z s hs
+    choose g hg1 hg2 using hq
+    refine ⟨a.map g, mapM_ok_arr a _ g (fun x _ => hg1 x), by simp, fun k => ?_⟩
+    rw [Array.getElem?_map]
+    cases a[k]? <;> simp [hg2]
+
+example : sdiv (#[⟨1, 2⟩] : Array (Cx ℝ)) ⟨0, 0⟩ = .error .arith := by
+  rcases sdiv_complex #[⟨1, 2⟩] ⟨0, 0⟩ with h | h
+  · exact h.2.2
+  · rcases h.1 with h | h
+    · exact absurd rfl h
+    · simp at h
+
+end ComplexVecReal
+
 end Ohsl.Props.C15
